@@ -71,6 +71,27 @@ MUTANTS = [
     ("c14-shift-not-set", ["C14"], [(NORM, "            self.shift.data = -mu\n", "")], "ACT-MUST"),
 ]
 
+MUTANTS += [
+    # ---- C15 ----
+    ("c15-perm-plain", ["C15"], [(T + "permutations.py", 'self.register_buffer("_permutation", permutation)', 'self._permutation = permutation')], "PERS-RNG"),
+    ("c15-mask-nonpersistent", ["C15"], [(MADE1, 'self.register_buffer("mask", mask)', 'self.register_buffer("mask", mask, persistent=False)')], "PERS-RNG"),
+    ("c15-degrees-nonpersistent-2", ["C15"], [(MADE2, 'self.register_buffer("degrees", degrees)', 'self.register_buffer("degrees", degrees, persistent=False)')], "PERS-RNG"),
+    ("c15-blocks-list", ["C15"], [(MADE1, "self.blocks = nn.ModuleList(blocks)", "self.blocks = blocks")], "PERS-CALL"),
+    ("c15-running-var-np", ["C15"], [(NORM, 'self.register_buffer("running_var", torch.zeros(features))', 'self.register_buffer("running_var", torch.zeros(features), persistent=False)')], "PERS-"),
+    ("c15-initialized-np", ["C15", "C14"], [(NORM, 'self.register_buffer("initialized", torch.tensor(False, dtype=torch.bool))', 'self.register_buffer("initialized", torch.tensor(False, dtype=torch.bool), persistent=False)')], "PERS-MUT"),
+    ("c15-random-plain-used", ["C15"], [(T + "nonlinearities.py", "        self.negative_slope = negative_slope\n        self.log_negative_slope = torch.log(torch.as_tensor(self.negative_slope))", "        self.negative_slope = negative_slope\n        self.jitter = 1e-3 * torch.rand(1)\n        self.log_negative_slope = torch.log(torch.as_tensor(self.negative_slope)) + self.jitter")], "PERS-RNG"),
+    # ---- C16 ----
+    ("c16-detach-logscale", ["C16"], [(T + "coupling.py", "log_scale = torch.log(scale)\n        outputs = inputs * scale + shift", "log_scale = torch.log(scale).detach()\n        outputs = inputs * scale + shift")], "GRAD-CUT"),
+    ("c16-data-diag", ["C16"], [(T + "lu.py", "return F.softplus(self.unconstrained_upper_diag) + self.eps", "return F.softplus(self.unconstrained_upper_diag.data) + self.eps")], "GRAD-CUT"),
+    ("c16-nograd-spline", ["C16"], [(T + "nonlinearities.py", "        outputs, logabsdet = spline_fn(\n            inputs=inputs,\n            unnormalized_widths=unnormalized_widths,\n            unnormalized_heights=unnormalized_heights,\n            unnormalized_derivatives=unnormalized_derivatives,", "        with torch.no_grad():\n          outputs, logabsdet = spline_fn(\n            inputs=inputs,\n            unnormalized_widths=unnormalized_widths,\n            unnormalized_heights=unnormalized_heights,\n            unnormalized_derivatives=unnormalized_derivatives,")], "GRAD-CUT"),
+    ("c16-float-temperature", ["C16"], [(T + "nonlinearities.py", "inputs = self.temperature * inputs\n        outputs = torch.sigmoid(inputs)", "inputs = float(self.temperature) * inputs\n        outputs = torch.sigmoid(inputs)")], "GRAD-CUT"),
+    ("c16-unused-param", ["C16"], [(T + "qr.py", "        upper[self.upper_indices[0], self.upper_indices[1]] = self.upper_entries\n", "")], "GRAD-REACH"),
+    ("c16-detach-logstd", ["C16"], [("nflows/distributions/normal.py", "        log_prob -= torchutils.sum_except_batch(log_stds, num_batch_dims=1)\n        log_prob -= self._log_z\n        return log_prob\n\n    def _sample(self, num_samples, context):\n        raise", "        log_prob -= torchutils.sum_except_batch(log_stds.detach(), num_batch_dims=1)\n        log_prob -= self._log_z\n        return log_prob\n\n    def _sample(self, num_samples, context):\n        raise")], "GRAD-CUT"),
+    ("c16-tensor-copy", ["C16"], [(T + "standard.py", "        outputs = inputs * self._scale + self._shift", "        outputs = torch.tensor(inputs) * self._scale + self._shift")], "GRAD-CUT"),
+    ("c16-item-logdet", ["C16"], [(T + "svd.py", "        return torch.sum(self.log_diagonal)", "        return torch.sum(self.log_diagonal).item()")], "GRAD-"),
+    ("c16-householder-detach", ["C16"], [(T + "orthogonal.py", "temp = torch.ger(temp, (2.0 / squared_norm) * q_vector)  # Outer product.", "temp = torch.ger(temp, (2.0 / squared_norm.detach()) * q_vector)  # Outer product.")], "GRAD-CUT"),
+]
+
 BENIGN = [
     ("b-c06-rename-local", ["C06"], [(MADE1, "        prev_out_degrees = self.initial_layer.degrees\n        for _ in range(num_blocks):", "        prev_out_degrees = self.initial_layer.degrees\n        for _blk in range(num_blocks):")]),
     ("b-c06-guard-form", ["C06"], [(MADE1, "if torch.all(self.degrees >= in_degrees).item() != 1:", "if not torch.all(in_degrees <= self.degrees):")]),
@@ -84,5 +105,9 @@ BENIGN = [
     ("b-c13-fresh-inplace", ["C13"], [(T + "lu.py", "        outputs = inputs - self.bias\n        outputs = torch.linalg.solve_triangular(", "        outputs = inputs - self.bias\n        outputs *= 1.0\n        outputs = torch.linalg.solve_triangular(")]),
     ("b-c14-momentum-lerp", ["C14"], [(NORM, "self.running_mean.mul_(1 - self.momentum).add_(mean.detach() * self.momentum)", "self.running_mean.lerp_(mean.detach(), self.momentum)")]),
     ("b-c14-momentum-aug", ["C14"], [(NORM, "self.running_var.mul_(1 - self.momentum).add_(var.detach() * self.momentum)", "self.running_var += self.momentum * (var.detach() - self.running_var)")]),
+    ("b-c16-detach-index", ["C16"], [(T + "splines/linear.py", "        bin_idx = torch.floor(bin_pos).long()", "        bin_idx = torch.floor(bin_pos.detach()).long()")]),
+    ("b-c16-detach-mask", ["C16"], [(T + "splines/quadratic.py", "    inside_interval_mask = (inputs >= -tail_bound) & (inputs <= tail_bound)", "    inside_interval_mask = (inputs.detach() >= -tail_bound) & (inputs.detach() <= tail_bound)")]),
+    ("b-c15-extra-persistent-buffer", ["C15"], [(T + "nonlinearities.py", "        self.negative_slope = negative_slope\n        self.log_negative_slope", "        self.negative_slope = negative_slope\n        self.register_buffer('jitter', 1e-3 * torch.rand(1))\n        self.log_negative_slope")]),
+    ("b-c15-ctor-derived-nonpersistent", ["C15"], [(T + "coupling.py", '        self.register_buffer(\n            "transform_features", features_vector.masked_select(mask > 0)\n        )', '        self.register_buffer(\n            "transform_features", features_vector.masked_select(mask > 0), persistent=False\n        )')]),
     ("b-c14-guard-order", ["C14"], [(NORM, "if self.training and not self.initialized:", "if not self.initialized and self.training:")]),
 ]
